@@ -85,7 +85,22 @@ func (c *VCtx) call(fr *Frame, st *State, cc *ssa.CallCommon, instr *ssa.Call, m
 		recv := fr.eval(cc.Value)
 		if m := c.invokeModel(cc); m != nil {
 			c.eng.assume("assumed contract: " + m.name)
-			return m.run(c, fr, st, cc, append([]Val{recv}, args...), rt)
+			res := m.run(c, fr, st, cc, append([]Val{recv}, args...), rt)
+			if fr.contract != nil && len(fr.contract.Ghost) > 0 && mode != "go" {
+				// ghost statements right after a modelled call through an interface: "invoke <Method>", ret = its result
+				extra := map[string]Val{}
+				if res != nil {
+					if tup, isTup := res.(Tuple); isTup {
+						for i, r := range tup {
+							extra[fmt.Sprintf("ret%d", i)] = r
+						}
+					} else {
+						extra["ret"] = res
+					}
+				}
+				c.runGhost(fr, st, fr.contract, "invoke "+cc.Method.Name(), extra)
+			}
+			return res
 		}
 		if mode == "go" {
 			return nil
@@ -134,6 +149,19 @@ func (c *VCtx) call(fr *Frame, st *State, cc *ssa.CallCommon, instr *ssa.Call, m
 			}
 		default:
 			unsup("call of %T value", v)
+		}
+	}
+	if (mode == "call" || mode == "defer") && fr.contract != nil && fr.contract.Asserts != nil && fv != nil && fv.Fn != nil {
+		// assertions right before a static call: "call <function key>", arg0, arg1, ... = its arguments (receiver first)
+		pt := "call " + strings.SplitN(bareName(FuncKey(fv.Fn)), "[", 2)[0]
+		if len(fr.contract.Asserts[pt]) > 0 {
+			saved := c.assertExtra
+			c.assertExtra = map[string]Val{}
+			for i, a := range args {
+				c.assertExtra[fmt.Sprintf("arg%d", i)] = a
+			}
+			c.pointAsserts(fr, st, pt, cc.Pos())
+			c.assertExtra = saved
 		}
 	}
 	res := c.callFn(fr, st, cc, fv, args, rt, mode)
